@@ -57,7 +57,7 @@ def prop_catalogue(tier):
         add("exactly_eq", n, [S, sr(-1, n + 1)], D=2)
         add("exactly_true", n, [sr(-1, n + 1)], D=1, base=0)
     # gcc: v0 = 0, capacities symbolic in [0, n+1] (incl. sum(upper) < n, lower > upper, zero capacities)
-    gcc_nm = [(1, 1), (1, 2), (2, 1), (2, 2)] if q else [(1, 1), (1, 2), (2, 1), (2, 2), (2, 3), (3, 2)]
+    gcc_nm = [(1, 1), (1, 2), (2, 1), (2, 2), (2, 3)] if q else [(1, 1), (1, 2), (2, 1), (2, 2), (2, 3), (3, 2)]
     for n, m in gcc_nm:
         add("gcc", n, [0] + [sr(0, n + 1)] * (2 * m), D=m - 1, base=0)
     fixed = [
